@@ -713,6 +713,9 @@ def _rep(a, b):
 
 
 WITNESSES = [
+    ("shared export kept on the sample", "batchie.models.sparse_combo_interaction",
+     _rep("        return params\n\n    @classmethod\n    def from_dicts(cls, private_params: dict, shared_params: dict):\n        single_effect_lookup_keys = zip(",
+          "        self._shared_parameters = params\n        return params\n\n    @classmethod\n    def from_dicts(cls, private_params: dict, shared_params: dict):\n        single_effect_lookup_keys = zip("), ["R1"]),
     ("zero-padded group names read back in string order", "batchie.core",
      lambda t: _rep("i_grp = private_grp.create_group(str(i))", "i_grp = private_grp.create_group(\"{:04d}\".format(i))")(_rep("theta_keys = sorted(list(private_grp.keys()), key=int)", "theta_keys = sorted(list(private_grp.keys()))")(t)), ["R1"]),
     ("sorted without key=int", "batchie.core", _rep("theta_keys = sorted(list(private_grp.keys()), key=int)", "theta_keys = sorted(list(private_grp.keys()))"), ["R1"]),
